@@ -618,7 +618,9 @@ def run(ctx):
                 near_tie += 1
         else:
             below_n += 1
-            if k == ow.shape[0] and V.shape == (n, k) and np.linalg.matrix_rank(V) == k:
+            if k == ow.shape[0] and V.shape == (n, k) and np.linalg.matrix_rank(V) < k:
+                bad.append("the Ritz vectors are linearly dependent")
+            elif k == ow.shape[0] and V.shape == (n, k):
                 # all Ritz pairs were requested: Galerkin condition - the residual A V - V diag(w) is orthogonal to span(V)
                 Rr = D @ V - V * np.asarray(w)[None, :]
                 gal = float(np.abs(np.linalg.pinv(V) @ Rr).max())
